@@ -29,7 +29,7 @@ func genC05(tier string, seed int64) (*Family, error) {
 		PkgPath:    modPath + "/zz_verif/" + pkg,
 		Files:      map[string]string{},
 		Bounds:     map[string]interface{}{},
-		Cfg:        interp.Config{MaxSteps: 3_000_000, TrackAllocs: []string{"eMsg"}, TrackFields: []string{"engine.Gengine.returnResult"}},
+		Cfg:        interp.Config{MaxSteps: 3_000_000, TrackAllocs: []string{"*"}, TrackFields: []string{"engine.Gengine.returnResult"}},
 		Functions: []string{"engine.Gengine).ExecuteMixModel", "engine.Gengine).ExecuteInverseMixModel", "engine.Gengine).ExecuteNSortMConcurrent",
 			"engine.Gengine).ExecuteNConcurrentMSort", "engine.Gengine).ExecuteNConcurrentMConcurrent", "engine.Gengine).ExecuteSelectedRulesMixModel", "engine.Gengine).ExecuteSelectedRulesInverseMixModel", "engine.Gengine).ExecuteSelectedNSortMConcurrent"},
 	}
